@@ -175,17 +175,135 @@ Qed.
 
 (* sameProposalContent: resealing other records under a sealed manifest reproduces the
    manifest only if the records are the same *)
-Lemma seal_same_manifest_same_records m recs1 recs2 m1 es1 m2 es2 :
-  SealProposalManifest m recs1 = Some (m1, es1) -> SealProposalManifest m recs2 = Some (m2, es2) ->
-  length recs1 = length recs2 -> m1 = m2 -> recs1 = recs2.
+Lemma seal_same_manifest_same_records m recs1 recs2 m1 es1 es2 :
+  SealProposalManifest m recs1 = Some (m1, es1) -> SealProposalManifest m recs2 = Some (m1, es2) ->
+  length recs1 = length recs2 -> recs1 = recs2.
 Proof.
-  unfold SealProposalManifest, DeriveProposalEntries. intros H1 H2 Hlen Hm.
+  unfold SealProposalManifest, DeriveProposalEntries. intros H1 H2 Hlen.
   destruct (_ || _ || _ || _ || _ || _ || _) in H1; [discriminate|].
   destruct (_ || _ || _ || _ || _ || _ || _) in H2; [discriminate|].
   destruct (if m_base (set_m_dg m D0) =? 0 then _ else _); [discriminate|].
   destruct (derive_loop _ _ _ _ _ recs1) as [e1|] eqn:E1; [|discriminate].
   destruct (derive_loop _ _ _ _ _ recs2) as [e2|] eqn:E2; [|discriminate].
-  inversion H1; subst. inversion H2; subst. clear H1 H2.
-  apply (f_equal m_dg) in Hm. cbn in Hm.
+  inversion H1 as [[Hm1 He1]]. inversion H2 as [[Hm2 He2]]. rewrite <- Hm1 in Hm2.
+  apply (f_equal m_dg) in Hm2. cbn in Hm2.
   eapply derive_loop_inj; eauto.
+Qed.
+
+(* ---- the exact append of one mutation --------------------------------------------------------------- *)
+
+From Coq Require Import ZifyBool ZifyN.
+
+Ltac break_if H :=
+  match type of H with
+  | context[if ?c then _ else _] => destruct c eqn:?
+  end.
+Ltac break_match H :=
+  match type of H with
+  | context[match ?c with _ => _ end] => destruct c eqn:?
+  end.
+
+(* what one Sync can do to a replica, for both store back ends:
+   Durable     the log end was exactly the proposal's base and the derived entries / rows were
+               appended, both proposal indexes now bind the manifest;
+   Already     log and indexes are untouched (only the committed watermark may rise);
+   otherwise   the replica is unchanged. *)
+Definition sync_effect (rp : replica) (mu : mutation) (rp' : replica) (o : outcome) : Prop :=
+  match o with
+  | ODurable =>
+      rp_leo rp = m_base (mu_manifest mu) /\
+      exists es, DeriveProposalEntries (mu_manifest mu) (mu_records mu) = Some es /\
+                 rp_log rp' = rp_log rp ++ combine es (mu_records mu) /\
+                 rp_bycmd rp' = set_cmd (rp_bycmd rp) (m_cmd (mu_manifest mu)) (mu_manifest mu) /\
+                 rp_bylast rp' = set_last (rp_bylast rp) (m_last (mu_manifest mu)) (mu_manifest mu)
+  | OAlready =>
+      rp_log rp' = rp_log rp /\ rp_bycmd rp' = rp_bycmd rp /\ rp_bylast rp' = rp_bylast rp /\
+      by_cmd (rp_bycmd rp) (m_cmd (mu_manifest mu)) = Some (mu_manifest mu)
+  | _ => rp' = rp
+  end.
+
+Ltac finish3 H :=
+  match type of H with
+  | (_, _, _) = (_, _, _) => inversion H; subst; clear H
+  end.
+
+Lemma appendLeaderExactLocked_effect rp m recs rp' o nf :
+  appendLeaderExactLocked rp m recs = (rp', o, nf) ->
+  sync_effect rp (Mutation m recs 0 false) rp' o.
+Proof.
+  unfold appendLeaderExactLocked, sync_effect. cbn [mu_manifest mu_records]. intro H.
+  repeat (first [break_if H | break_match H]; try (finish3 H; try reflexivity)).
+  - (* Already *)
+    repeat split; try reflexivity.
+    match goal with Hm : manifest_eqb ?x m && _ && _ && _ = true |- _ =>
+      rewrite !andb_true_iff in Hm; destruct Hm as [[[Hm _] _] _]; apply manifest_eqb_eq in Hm; subst x end.
+    first [assumption | reflexivity | congruence].
+  - (* Durable *)
+    split; [unfold rp_leo in *; lia|]. eexists. split; [reflexivity|]. cbn. auto.
+Qed.
+
+Lemma set_hw_fields rp hw :
+  rp_log (set_hw rp hw) = rp_log rp /\ rp_bycmd (set_hw rp hw) = rp_bycmd rp /\
+  rp_bylast (set_hw rp hw) = rp_bylast rp /\ rp_hw (set_hw rp hw) = hw.
+Proof. repeat split. Qed.
+
+Lemma prepareExactAppendRecordsLocked_effect rp mu rp' o nf :
+  prepareExactAppendRecordsLocked rp mu = (rp', o, nf) ->
+  match o with
+  | ODurable =>
+      rp_leo rp = m_base (mu_manifest mu) /\
+      exists es, DeriveProposalEntries (mu_manifest mu) (mu_records mu) = Some es /\
+                 rp_log rp' = rp_log rp ++ combine es (mu_records mu) /\
+                 rp_bycmd rp' = set_cmd (rp_bycmd rp) (m_cmd (mu_manifest mu)) (mu_manifest mu) /\
+                 rp_bylast rp' = set_last (rp_bylast rp) (m_last (mu_manifest mu)) (mu_manifest mu)
+  | OAlready =>
+      rp_log rp' = rp_log rp /\ rp_bycmd rp' = rp_bycmd rp /\ rp_bylast rp' = rp_bylast rp /\
+      by_cmd (rp_bycmd rp) (m_cmd (mu_manifest mu)) = Some (mu_manifest mu)
+  | _ => rp' = rp
+  end.
+Proof.
+  unfold prepareExactAppendRecordsLocked. cbv zeta. intro H.
+  repeat (first [break_if H | break_match H]; try (finish3 H; try reflexivity)).
+  all: try (split; [unfold rp_leo in *; lia|]; eexists; split; [reflexivity|]; cbn; auto).
+  all: cbn; repeat split; try reflexivity.
+  all: destruct (by_cmd (rp_bycmd rp) (m_cmd (mu_manifest mu))) as [c|] eqn:Hbc; try discriminate.
+  all: match goal with
+       | Hn : negb (manifest_eqb _ _ && manifest_eqb _ _ && _) = false |- _ =>
+           apply negb_false_iff in Hn; rewrite !andb_true_iff in Hn; destruct Hn as [[Hc Hm] _];
+           apply manifest_eqb_eq in Hc; apply manifest_eqb_eq in Hm; subst; reflexivity
+       end.
+Qed.
+
+(* ReplicaStore.Sync of one mutation, both back ends *)
+Lemma sync_effect_holds k rp mu rp' o nf :
+  sync k rp mu = (rp', o, nf) -> sync_effect rp mu rp' o.
+Proof.
+  unfold sync. destruct (negb (validMutation mu)); [intro H; inversion H; subst; reflexivity|].
+  destruct k.
+  - destruct (appendLeaderExactLocked rp (mu_manifest mu) (mu_records mu)) as [[rp1 o1] nf1] eqn:E.
+    apply appendLeaderExactLocked_effect in E. unfold sync_effect in *. cbn [mu_manifest mu_records] in E.
+    destruct (outcome_durable o1) eqn:Hd.
+    + intro H. inversion H; subst. destruct o; try discriminate;
+        destruct (rp_hw rp1 <? mu_committed mu); cbn; exact E.
+    + intro H. inversion H; subst. exact E.
+  - intro H. apply prepareExactAppendRecordsLocked_effect in H. exact H.
+Qed.
+
+(* consequences used everywhere: a non-durable outcome never changes the replica, and no
+   outcome ever changes or removes an existing log entry *)
+Lemma sync_not_durable_unchanged k rp mu rp' o nf :
+  sync k rp mu = (rp', o, nf) -> outcome_durable o = false -> rp' = rp.
+Proof.
+  intros H Hd. apply sync_effect_holds in H. destruct o; try discriminate; exact H.
+Qed.
+
+Lemma sync_log_prefix k rp mu rp' o nf :
+  sync k rp mu = (rp', o, nf) -> exists ext, rp_log rp' = rp_log rp ++ ext.
+Proof.
+  intro H. apply sync_effect_holds in H. destruct o; cbn in H.
+  - destruct H as (_ & es & _ & Hl & _). eexists. exact Hl.
+  - destruct H as (Hl & _). exists []. rewrite app_nil_r. exact Hl.
+  - subst. exists []. rewrite app_nil_r. reflexivity.
+  - subst. exists []. rewrite app_nil_r. reflexivity.
+  - subst. exists []. rewrite app_nil_r. reflexivity.
 Qed.
